@@ -83,8 +83,12 @@ def echelonpluq_mc(tier):
     """mzd_echelonize_pluq composed from the PLE/PLUQ and TRSM models (alg/EchelonPluq.tla): both pivot rules, one witness per branch on r"""
     js = [mcjob('MC_EchelonPluq', 'MC_EchelonPluq', workers=8), mcjob('MC_EchelonPluq', 'MC_EchelonPluq_last', workers=8)]
     js += [mcjob('MC_EchelonPluq', 'MC_EchelonPluq_wit_' + w, workers=2, witness=True) for w in ('NoAligned', 'NoCopy', 'NoCopyWindow')]
+    # the density switch of mzd_echelonize (alg/EchelonHybrid.tla): hand-over at every column, to the PLUQ route, top reduction after it
+    js += [mcjob('MC_EchelonHybrid', 'MC_EchelonHybrid_' + c, workers=8) for c in ('km1', 'km2', 'gap1')]
+    js += [mcjob('MC_EchelonHybrid', 'MC_EchelonHybrid_wit_' + w, workers=2, witness=True) for w in ('NoMidWordHandover', 'NoHandoverWithPivotsAbove')]
     if tier != 'quick':
         js.append(mcjob('MC_EchelonPluq', 'MC_EchelonPluq_full', workers=12, timeout=3000))
+        js.append(mcjob('MC_EchelonHybrid', 'MC_EchelonHybrid_full', workers=12, timeout=3000))
     return js
 
 
